@@ -1,8 +1,8 @@
 (** C12 — Documented value ranges and ordering invariants hold on every valid stream (exact arithmetic). *)
 From Yata Require Import Base.Prelude Base.Num Base.NumR Core.Window Core.Candle Core.Action Core.Strings
   Spec.Hist Spec.MethodDefs Spec.IndicatorDefs Methods.Basic Methods.Select Indicators.Common Indicators.Set1 Indicators.Set2 Indicators.Set3 Proofs.Ranges Proofs.Averages
-  Proofs.IndicatorProofs2 Proofs.IndicatorProofs3 Proofs.IndicatorProofs6 Indicators.Set5 Proofs.IndicatorProofs15 Proofs.TsxRange.
-From Coq Require Import Reals.
+  Proofs.IndicatorProofs2 Proofs.IndicatorProofs3 Proofs.IndicatorProofs6 Proofs.IndicatorProofs4 Indicators.Set5 Proofs.IndicatorProofs15 Proofs.TsxRange.
+From Coq Require Import Reals Lra Lia.
 Open Scope R_scope.
 
 Section C12.
@@ -97,6 +97,37 @@ Theorem C12_donchian_model_contains n (c0 : C) cs c i : (2 <= n <= pmax - 1)%Z -
 Proof.
   intros Hn Hi. destruct (donchian_values_correct n c0 cs c Hn) as (s0 & E & H). exists s0. split; [exact E|].
   rewrite H. apply donchian_contains. exact Hi.
+Qed.
+Theorem C12_cmf_model_range size (c0 : C) cs c : (1 < size < pmax)%Z ->
+  (forall i, let k := hget c0 (rev (cs ++ [c])) i in c_low k <= c_close k <= c_high k /\ 0 <= c_volume k) ->
+  0 < gsum (N := NumR) (Z.to_nat size) (fun i => c_volume (hget c0 (rev (cs ++ [c])) i)) ->
+  exists s0, cmf_init size c0 = Ok s0 /\
+    Forall (fun v => -1 <= v <= 1) (fst (snd (cmf_next (steps cmf_next s0 cs) c))).
+Proof.
+  intros Hs Hc Hv. destruct (cmf_values_correct size c0 cs c Hs) as (s0 & E & H). exists s0. split; [exact E|].
+  rewrite H. apply cmf_range; assumption.
+Qed.
+Theorem C12_price_channel_model_order n (sigma : R) (c0 : C) cs c : (2 <= n <= pmax - 1)%Z -> 0 < sigma <= 1 ->
+  c_low c <= c_high c ->
+  exists s0, pch_init n sigma c0 = Ok s0 /\
+    match fst (snd (pch_next (steps pch_next s0 cs) c)) with [u; l] => l <= u | _ => False end.
+Proof.
+  intros Hn Hs Hc. destruct (price_channel_values_correct n sigma c0 cs c Hn Hs) as (s0 & E & H). exists s0. split; [exact E|].
+  rewrite H. apply pch_order; [lia|lra|]. rewrite rev_unit. exact Hc.
+Qed.
+Theorem C12_true_strength_model_range p1 p2 p3 zone src (c0 : C) cs c : tsii_validate p1 p2 p3 zone = true ->
+  exists s0, tsii_init p1 p2 p3 zone src c0 = Ok s0 /\
+    Forall (fun v => -1 <= v <= 1) (fst (snd (tsii_next (steps tsii_next s0 cs) c))).
+Proof.
+  intros Hv. destruct (tsii_values_correct p1 p2 p3 zone src c0 cs c Hv) as (s0 & E & H). exists s0. split; [exact E|].
+  assert (Hr : (2 <= p2 <= p1)%Z /\ (2 <= p3)%Z).
+  { unfold tsii_validate in Hv. repeat (apply andb_prop in Hv; destruct Hv as (Hv & ?)).
+    repeat match goal with H : (_ <? _)%Z = true |- _ => apply Z.ltb_lt in H | H : (_ <=? _)%Z = true |- _ => apply Z.leb_le in H end. lia. }
+  rewrite H. unfold tsii_values. cbv zeta. constructor; [apply tsi_range; lia|]. constructor; [|constructor].
+  unfold ema_def. apply (ema_range _ _ (-1) 1).
+  - apply ema_alpha_unit. lia.
+  - unfold f0. cbn. lra.
+  - intros x Hx. unfold series in Hx. apply in_map_iff in Hx. destruct Hx as (l & <- & _). apply tsi_range; lia.
 Qed.
 (** TrendStrengthIndex: the value is the correlation coefficient of the window with a ramp, so it lies in [-1, 1]
     (Cauchy-Schwarz; in exact arithmetic a flat window gives 0 / sqrt 0, read as 0 - the binary64 code returns NaN there,
